@@ -6,6 +6,7 @@ import TantivyModel.Proofs.GrammarPhrase
 import TantivyModel.Proofs.GrammarCharsPrint
 import TantivyModel.Proofs.GrammarCharsPrintList
 import TantivyModel.Proofs.GrammarCharsNested
+import TantivyModel.Proofs.GrammarCharsBoost
 import TantivyModel.Model.Grammar.Agree
 /-!
 # C16 — The query parser is total and implements its documented grammar
@@ -300,8 +301,9 @@ theorem C16_strict_panic_witness :
    fragment `WFOpd` (`C16_print_parse_nested`): parenthesised lists nested to any depth whose operands
    are words, quoted phrases of any characters (printed with escapes) with slop / prefix star, field
    prefixes, bracketed and elastic ranges, sets, `*`, `name:*`, `NOT x`.
-   Still open in the ∀ form: boosts `x^2` (the remainder class `Rem` after a leaf would have to admit
-   `^`), escapes inside unquoted words, single-quoted phrases, regex leaves, `name:(group)`, negative
+   (5) boosts on items that end with a closing bracket (`C16_print_parse_boosted`).
+   Still open in the ∀ form: boosts directly after a word or a phrase (`a^2`: the remainder class `Rem`
+   after such a leaf would have to admit `^`), escapes inside unquoted words, single-quoted phrases, regex leaves, `name:(group)`, negative
    numbers, `*` as a range bound, blanks inside elastic ranges, unicode blanks as separators. -/
 /-- **print/parse at leaf level, for all words**: the strict parser (with or without the guard)
     reads a word of ASCII letters and digits that is not `OR`/`AND`/`NOT`/`IN` as the unfielded,
@@ -347,6 +349,34 @@ theorem C16_print_parse_nested (guard : Bool) (lead : Nat) (occ : Option Occur) 
     (more : List PItem) (k : Nat) (ho : WFOpd o) (hm : ∀ it ∈ more, WFOpd it.opd) :
     parseStrictWith guard (printList lead occ o more k []) = .tree (rewrite (listTree occ o more)) :=
   parseStrictWith_printList guard lead occ o more k ho hm
+
+/-- **print/parse with boosts**: the items of a list (at the top level and inside parenthesised
+    lists, to any depth) may carry a boost `^digits[.digits]` when the boosted operand ends with a
+    closing bracket — a parenthesised list, a bracketed range or a set, the latter two also with a
+    field prefix (`WFB true`); every other item is a well-formed operand of `C16_print_parse_nested`,
+    a parenthesised list of such items, or `NOT` of an unboosted one (`WFB false`). The strict parser
+    reads the printed text as `rewrite_ast` of the tree the structure denotes, in which a boosted
+    operand's tree is wrapped by `applyBoost` with the value the grammar computes from the decimal
+    text (`BoostLit.val`: a boost of exactly one leaves the tree unchanged). -/
+theorem C16_print_parse_boosted (guard : Bool) (lead : Nat) (occ : Option Occur) (o : Opd)
+    (more : List PItem) (k : Nat) (ho : ∃ b, WFB b o) (hm : ∀ it ∈ more, ∃ b, WFB b it.opd) :
+    parseStrictWith guard (printList lead occ o more k []) = .tree (rewrite (listTree occ o more)) :=
+  parseStrictWith_printList_boost guard lead occ o more k ho hm
+
+/-- `(a)^2.5 [a TO b]^1` is such a text: the first item is the group boosted by 2.5 (stored as the
+    decimal 25 with one fraction digit), the boost of exactly one on the range disappears -/
+example :
+    let g1 := boostOpd (groupOpd 0 none (wordOpd ['a']) [] 0) ⟨['2'], ['5']⟩
+    let r1 := boostOpd (rangeOpd true true ['a'] ['b']) ⟨['1'], []⟩
+    printList 0 none g1 [⟨none, none, r1, 0, 0⟩] 0 []
+      = ['(', 'a', ')', '^', '2', '.', '5', ' ', '[', 'a', ' ', 'T', 'O', ' ', 'b', ']', '^', '1']
+    ∧ g1.leaf = .boost (listTree none (wordOpd ['a']) []) (BoostText.code ⟨25, 1⟩)
+    ∧ r1.leaf = (rangeOpd true true ['a'] ['b']).leaf
+    ∧ WFB true g1 ∧ WFB true r1 := by
+  refine ⟨by decide, rfl, rfl, ?_, ?_⟩
+  · exact .boostGroup 0 none _ [] 0 false (fun _ => false) (.base _ (.word _ ⟨by simp, by decide, by decide⟩))
+      (by intro it hi; cases hi) _ ⟨by simp, by decide, by decide⟩
+  · exact .boostRange _ _ _ _ ⟨by simp, by decide⟩ ⟨by simp, by decide⟩ _ ⟨by simp, by decide, by simp⟩
 
 /-- the tree of a printed list is the strict fold of the operands' trees (the subject of the
     fold-layer theorems) -/
